@@ -122,6 +122,11 @@ def snap(net):
         out["lights"][s.traffic_light_id] = S.snap_light(s)
     for x in net.intersections:
         out["intersections"][x.intersection_id] = S.snap_intersection(x)
+        # derived public views of the incoming sets (lanelet id -> incoming element / intersection)
+        out.setdefault("derived_maps", {})["intersection %d map_incoming_lanelets" % x.intersection_id] = sorted(
+            x.map_incoming_lanelets.keys())
+    out.setdefault("derived_maps", {})["network map_inc_lanelets_to_intersections"] = sorted(
+        net.map_inc_lanelets_to_intersections.keys())
     return out
 
 
@@ -166,6 +171,9 @@ def dangling(s):
             for k in ("incoming_lanelets", "successors_right", "successors_straight", "successors_left"):
                 bad += [("incoming.%s" % k, x) for x in inc[k] if x not in L]
         bad += [("intersection.crossings", x) for x in d["crossings"] if x not in L]
+    for name, keys in s.get("derived_maps", {}).items():
+        bad += [(name.split(" ", 2)[-1] if name.startswith("intersection") else "network.map_inc_lanelets_to_intersections", x)
+                for x in keys if x not in L]
     return bad
 
 
@@ -511,6 +519,8 @@ def run(ctx):
                 for side in (sa, sb):
                     side["intersections"][iid]["incomings"] = {k: v for k, v in side["intersections"][iid]["incomings"].items()
                                                                if k in both}
+        for side in (sa, sb):
+            side.pop("derived_maps", None)   # (they follow from which incoming elements survive)
         common = {cat: {k: sa[cat][k] for k in sa[cat] if k in sb[cat]} for cat in sa}
         dfs = S.diff(_sk(common), _sk({cat: {k: sb[cat][k] for k in common[cat]} for cat in sb}), S.real_ok_bits)
         ctx.feature("complete-copy-compared-with-source")
